@@ -507,8 +507,12 @@ class Emitter:
         if self.is_method(fn):
             ps.append(self.cdecl(self.this_ctype(fn), 'this_'))
             names.append('this_')
+        seen_names = set()
         for i, p in enumerate(self.params(fn)):
             nm = p.get('name') or ('_unnamed%d' % i)
+            if nm in seen_names:      # expanded parameter pack: every element carries the pack's name
+                nm = '%s_%d' % (nm.split('__pk')[0], i)
+            seen_names.add(nm)
             p['name'] = nm
             self.tu.decls[p['id']] = p
             ps.append(self.cdecl(self.ctype_of(qt(p)), nm))
